@@ -6,6 +6,7 @@ use std::sync::Once;
 
 thread_local! {
     static LAST_PANIC: RefCell<Option<String>> = const { RefCell::new(None) };
+    static DEPTH: std::cell::Cell<u32> = const { std::cell::Cell::new(0) };
 }
 
 static HOOK: Once = Once::new();
@@ -21,6 +22,9 @@ pub fn install_hook() {
                 "<non-string panic>".to_string()
             };
             let loc = info.location().map(|l| format!("{}:{}", l.file(), l.line())).unwrap_or_default();
+            if DEPTH.with(|d| d.get()) == 0 {
+                eprintln!("harness panic outside any guard: {msg} @ {loc}");
+            }
             LAST_PANIC.with(|p| *p.borrow_mut() = Some(format!("{msg} @ {loc}")));
         }));
     });
@@ -29,7 +33,10 @@ pub fn install_hook() {
 /// Run `f`; a panic becomes `Err(message @ location)`.
 pub fn guard<T>(f: impl FnOnce() -> T) -> Result<T, String> {
     install_hook();
-    match catch_unwind(AssertUnwindSafe(f)) {
+    DEPTH.with(|d| d.set(d.get() + 1));
+    let r = catch_unwind(AssertUnwindSafe(f));
+    DEPTH.with(|d| d.set(d.get() - 1));
+    match r {
         Ok(v) => Ok(v),
         Err(_) => Err(LAST_PANIC.with(|p| p.borrow_mut().take()).unwrap_or_else(|| "panic".into())),
     }
